@@ -32,11 +32,14 @@ func init() {
 		case "late4":
 			sc = sched.LateWitness(40)
 		default:
-			fmt.Fprintln(os.Stderr, "unknown scenario")
-			return 2
+			sc = sched.ScenarioByName(name)
 		}
 		st := &mon.Stats{}
 		mons := []mon.Monitor{mon.NewAgreement(st), mon.NewFinality()}
+		if len(args) > 1 {
+			mons = sched.MonitorFactory(args[1:], st)
+		}
+		quiet := os.Getenv("SMOKE_QUIET") != ""
 		t0 := time.Now()
 		x := sched.NewExec(sc, mons)
 		defer x.Close()
@@ -54,7 +57,9 @@ func init() {
 			if err != nil {
 				line += " ERR " + err.Error()
 			}
-			fmt.Println(line)
+			if !quiet {
+				fmt.Println(line)
+			}
 			if x.Dead() {
 				fmt.Println(x.C.Panic)
 				return 1
